@@ -5,7 +5,7 @@ import fcntl, hashlib, json, os, random, re, shutil, subprocess, sys, time
 VERIF = os.path.dirname(os.path.dirname(os.path.abspath(__file__)))
 REPO = os.environ.get("VERIF_REPO", "/repo")
 BUILD = os.path.join(VERIF, "_build")
-REPO_BUILD = os.path.join(BUILD, "repo")
+REPO_BUILD = os.path.join(BUILD, "repo" if REPO == "/repo" else "repo-" + hashlib.md5(REPO.encode()).hexdigest()[:8])
 COQ = os.path.join(VERIF, "coq")
 EXTRACT = os.path.join(BUILD, "extract")
 DRV = os.path.join(BUILD, "drv")
